@@ -1,6 +1,7 @@
 """C05 — Building and querying a glob is total."""
 import collections
 import itertools
+import re
 
 from ..teval import (Adt, Tup, Ref, Place, Cell, Sym, RList, Char, Top, Panicked, strip, some, none, ok, err, Interp, Closure)
 from ..facts import AnchorMissing
@@ -19,7 +20,7 @@ EXPLANATION = (
     "Also decided: the error mapping in encode::compile (which regex errors become CompileError), that no nom streaming "
     "combinator is used, and the recursion SCCs of the exact monomorphic call graph.  That a non-locally discharged site is "
     "really unreachable is audited, not proven; panics inside dependencies are assumed away.")
-RULES = "C05.inventory (INVENTORY), C05.guards (GUARD), C05.compile (TABLE), C05.recursion (INVENTORY)"
+RULES = "C05.inventory (INVENTORY), C05.guards (GUARD), C05.compile (TABLE), C05.recursion (INVENTORY), C05.syntax (EMIT)"
 
 ENTRY_POINTS = ["Glob::new", "any", "Glob::partition", "Glob::partition_or_empty", "Glob::partition_or_tree", "Glob::captures",
                 "Glob::has_semantic_literals", "Glob::is_empty", "Glob::into_owned", "escape", "is_meta_character",
@@ -42,20 +43,47 @@ def run(ctx):
     rule_compile(F, R)
     rule_streaming(F, R)
     rule_recursion(F, R)
+    rule_class_syntax(F, R)
 
 
-def match_entry(site):
+def rel_file(item):
+    f = item.file
+    return f[f.index("src/"):] if "src/" in f else f
+
+
+def table_keys():
+    """(file, kind, contains) -> [total count, status, reasons]"""
+    keys = {}
+    for (f, fn, kind, contains, count, status, reason) in c05_sites.SITES:
+        k = (f, kind, contains)
+        if k in keys:
+            keys[k][0] += count
+            if keys[k][1] != status:
+                # mixed statuses under one key: the worst decides (F > O > D) so that nothing is hidden
+                order = {"D": 0, "O": 1, "F": 2}
+                keys[k][1] = max(keys[k][1], status, key=lambda x: order[x])
+            keys[k][2].append(reason)
+        else:
+            keys[k] = [count, status, [reason]]
+    return keys
+
+
+def match_key(site, keys):
     hay = "%s|%s" % (site["what"], site["msg"])
-    for i, (fn, kind, contains, count, status, reason) in enumerate(c05_sites.SITES):
-        if fn == site["fn"].qname and kind == site["kind"] and contains in hay:
-            return i
-    return None
+    f = rel_file(site["fn"])
+    best = None
+    for (kf, kind, contains) in keys:
+        if kf == f and kind == site["kind"] and contains in hay:
+            if best is None or len(contains) > len(best[2]):
+                best = (kf, kind, contains)
+    return best
 
 
 def rule_inventory(F, R, cfg):
     sites = mirq.panic_sites(F)
     R.count("bodies_scanned[%s]" % cfg, len(F.items))
     R.count("panic_capable_sites[%s]" % cfg, len(sites))
+    keys = table_keys()
     used = collections.Counter()
     roots = [F.find(q, optional=True) for q in ENTRY_POINTS]
     roots = [r for r in roots if r is not None]
@@ -63,35 +91,67 @@ def rule_inventory(F, R, cfg):
         R.floor("C05.inventory", "public entry points found", len(roots), 10)
     reach, parent = mirq.reachable_from(F, roots)
     statuses = collections.Counter()
+    pending_asserts = []
     for s in sites:
-        i = match_entry(s)
-        where = "%s:%s" % (s["fn"].where().split(":")[0], s["line"])
+        k = match_key(s, keys)
+        where = "%s:%s" % (rel_file(s["fn"]), s["line"])
         key = mirq.site_key(s)
-        if i is None:
-            path = [F.items[k].qname for k in mirq.path_to(parent, roots, s["fn"].key)] if s["fn"].key in reach else ["(not reached from the listed entry points)"]
-            R.fail("C05.inventory", "unlisted:" + key,
+        if k is None and s["kind"] == "assert":
+            # compiler-inserted overflow / bounds assert that is not in the table: deferred (see below)
+            pending_asserts.append(s)
+            continue
+        if k is None:
+            path = [F.items[x].qname for x in mirq.path_to(parent, roots, s["fn"].key)] if s["fn"].key in reach else ["(not reached from the listed entry points)"]
+            R.fail("C05.inventory", "unlisted:%s|%s|%s|%s" % (rel_file(s["fn"]), s["kind"], re_norm(s["what"]), s["msg"]),
                    "a panic-capable construct that is not in the audited table: %s in %s (%s); call path: %s" % (
                        s["what"] + (" `%s`" % s["msg"] if s["msg"] else ""), s["fn"].qname, s["kind"], " -> ".join(path[-6:])), where)
             continue
-        used[i] += 1
-        fn, kind, contains, count, status, reason = c05_sites.SITES[i]
-        if used[i] > count:
-            R.fail("C05.inventory", "extra:" + key, "%s has %d sites of this kind, the audited table allows %d: a new way to panic "
-                   "has appeared" % (s["fn"].qname, used[i], count), where)
+        used[k] += 1
+        count, status, reasons = keys[k]
+        if used[k] > count and s["kind"] == "assert":
+            pending_asserts.append(s)
+            continue
+        if used[k] > count:
+            R.fail("C05.inventory", "extra:%s|%s|%s" % k, "%s has %d sites of kind %s matching `%s`, the audited table allows %d: a new way "
+                   "to panic has appeared (%s in %s)" % (k[0], used[k], k[1], k[2], count, s["what"], s["fn"].qname), where)
             continue
         statuses[status] += 1
         if status == "F":
-            R.fail("C05.inventory", "finding:%s|%s|%s" % (fn, kind, contains), "reachable panic: %s (%s)" % (reason, key), where)
+            R.fail("C05.inventory", "finding:%s|%s|%s" % k, "reachable panic: %s (%s)" % (reasons[0], key), where)
         else:
-            R.ok("C05.inventory", key, ("discharged: " if status == "D" else "out of scope: ") + reason, where, sample=(len(R.samples) < 6))
+            R.ok("C05.inventory", key, ("discharged: " if status == "D" else "out of scope: ") + reasons[0], where, sample=(len(R.samples) < 6))
+    # A new overflow / bounds assert is reported only where it can be the trace of checked arithmetic that was
+    # replaced by raw arithmetic: an audited expect / unwrap of the same file has fewer sites than audited.  Counters
+    # and guarded indexing added by behaviour-preserving edits are recorded in the evidence, not raised.
+    vanished = collections.Counter()
+    for k, (count, status, reasons) in keys.items():
+        if k[1] in ("expect", "unwrap") and used[k] < count:
+            if cfg == "default" or any(s_["fn"] for s_ in sites if rel_file(s_["fn"]) == k[0]):
+                vanished[k[0]] += count - used[k]
+    for s in pending_asserts:
+        f = rel_file(s["fn"])
+        where = "%s:%s" % (f, s["line"])
+        if vanished[f] > 0:
+            R.fail("C05.inventory", "unchecked-arithmetic:%s|%s" % (f, s["what"]),
+                   "a new %s assert in %s (%s) while %d audited expect/unwrap site(s) of the same file disappeared: checked arithmetic "
+                   "seems to have been replaced by raw arithmetic, which panics on overflow instead of being handled" % (
+                       s["what"], s["fn"].qname, where, vanished[f]), where)
+        else:
+            R.note("unlisted compiler-inserted %s assert in %s (%s): not raised (no audited checked-arithmetic site vanished)" % (s["what"], s["fn"].qname, where))
+            R.count("unlisted_asserts_informational[%s]" % cfg)
     if cfg == "default":
-        for i, (fn, kind, contains, count, status, reason) in enumerate(c05_sites.SITES):
-            if used[i] == 0 and status != "F":
-                R.note("audited entry without a site on this tree: %s|%s|%s" % (fn, kind, contains))
+        for k, (count, status, reasons) in keys.items():
+            if used[k] == 0 and status != "F":
+                R.note("audited entry without a site on this tree: %s|%s|%s" % k)
         R.floor("C05.inventory", "audited sites present", sum(used.values()), 60)
     R.count("discharged[%s]" % cfg, statuses["D"])
     R.count("out_of_scope[%s]" % cfg, statuses["O"])
     R.count("findings[%s]" % cfg, statuses["F"])
+
+
+def re_norm(what):
+    import re
+    return re.sub(r"\{closure@[^}]*\}", "{closure}", what)
 
 
 # ---------------------------------------------------------------------------------------------------
@@ -242,6 +302,82 @@ def rule_compile(F, R):
                 R.ok("C05.compile", "regex::Error::" + v, "returned as an error: %r" % (res,), cl.where())
 
 
+DESC_CLASSES = {
+    # name -> (negated, archetypes); a range whose start is greater than its end is rejected by the regex parser
+    "[z-a]": (False, [("z", "a")]),
+    "[!z-a]": (True, [("z", "a")]),
+    "[!xz-a]": (True, ["x", ("z", "a")]),
+    "[9-0k]": (False, [("9", "0"), "k"]),
+}
+
+
+def regex_escape(c):
+    return "\\" + c if c in "\\.+*?()|[]{}^$#&-~" else c
+
+
+def _class_leaf(neg, archetypes, name):
+    arch = []
+    for a in archetypes:
+        if isinstance(a, tuple):
+            arch.append(Adt("token::Archetype", "Range", {"0": Char(a[0]), "1": Char(a[1])}))
+        else:
+            arch.append(Adt("token::Archetype", "Character", {"0": Char(a)}))
+    kind = Adt(T.LEAF, "Class", {"0": Adt("token::Class", "Class", {"is_negated": neg, "archetypes": RList(arch)})})
+    t = Adt(T.TOKEN, "Token", {"topology": Adt(T.TOPO, "Leaf", {"0": kind}), "annotation": Sym("ann_" + name)})
+    t.tag = "class:" + name
+    return t
+
+
+def rule_class_syntax(F, R):
+    """C05.syntax (EMIT): a class whose range is descending (`[z-a]`: accepted by the parser, rejected by the regex
+    crate) never reaches the final program as written: any regex syntax error is a panic in encode::compile."""
+    from . import encoder
+    from .. import rx
+    from ..teval import StrB
+    # precondition: such a token can be built (the conversion used by the parser keeps the endpoints as written, and the
+    # parser's class rule does not compare them).  If it cannot, the rule has nothing to decide.
+    conv = F.find("<token::Archetype as std::convert::From>::from", trait_ref="(char, char)", optional=True)
+    if conv is None:
+        R.undecided("C05.syntax: the (char, char) -> Archetype conversion was not found; whether descending ranges are representable is not decided")
+        return
+    I = Interp(F)
+    res = tabulate.single(I.explore(lambda: I.call_item(conv, [Tup([Char("z"), Char("a")])], inst=False)))
+    res = strip(res)
+    keeps = isinstance(res, Adt) and res.variant == "Range" and [getattr(strip(res.fields.get(k)), "c", None) for k in ("0", "1")] == ["z", "a"]
+    compares = False
+    cls = F.find("token::parse::parse::class", optional=True)
+    if cls is not None:
+        for it in [cls] + F.closures_of(cls):
+            for e in F.thir(it)["exprs"]:
+                if e.get("kind") == "Binary" and e.get("op") in ("Lt", "Le", "Gt", "Ge"):
+                    compares = True
+    if not keeps or compares:
+        R.undecided("C05.syntax: descending class ranges seem to be normalised or rejected before the encoder (conversion keeps "
+                    "endpoints: %s, parser compares: %s); the emission rule is not applied" % (keeps, compares))
+        return
+    where = encoder.where_encode(F)
+    n = 0
+    for name, (neg, arch) in DESC_CLASSES.items():
+        for g, sup, pos in (("Capture", "None", "Only"), ("NonCapture", "None", "Middle"), ("Capture", "First", "First")):
+            for frag, em in encoder.fragment_for(F, g, sup, pos, _class_leaf(neg, arch, "k")):
+                n += 1
+                inst = "%s/%s/sup=%s/pos=%s" % (name, g, sup, pos)
+                # the fragment of the class itself, with its concrete escaped members written out
+                text = None if frag is None else re.sub(r"⟦esc:'(.)'⟧", lambda m: regex_escape(m.group(1)), frag)
+                if text is None or "⟦" in text:
+                    R.fail("C05.syntax", inst, "unanalysable emission for a class with a descending range: %r" % (em.case.result,), where)
+                    continue
+                try:
+                    rx.parse(text)
+                    R.ok("C05.syntax", inst, "emitted %s: accepted by the regex parser" % text, where, sample=(n % 7 == 1))
+                except rx.RxSyntax as e:
+                    R.fail("C05.syntax", inst, "the glob %s is encoded as %s, which the regex crate rejects (%s): encode::compile turns "
+                           "that error into a panic" % (name, text, e), where)
+                except rx.RxError as e:
+                    R.fail("C05.syntax", inst, "emitted text %r is not understood: %s" % (text, e), where)
+    R.floor("C05.syntax", "emissions of descending-range classes", n, 12)
+
+
 def rule_streaming(F, R):
     bad = F.callers_of(lambda fn: "::streaming::" in fn["path"])
     n = len(F.callers_of(lambda fn: fn["path"].startswith("nom::")))
@@ -254,20 +390,21 @@ def rule_recursion(F, R):
     comps = mirq.instance_sccs(F)
     seen = set()
     for comp in comps:
-        loc = sorted(set(F.items[F.instances[i]["def"]].qname for i in comp
-                         if F.instances[i]["local"] and F.instances[i]["def"] in F.items))
-        if not loc:
+        members = [F.items[F.instances[i]["def"]] for i in comp if F.instances[i]["local"] and F.instances[i]["def"] in F.items]
+        if not members:
             continue
-        key = "+".join(loc)
+        files = sorted(set(rel_file(m) for m in members))
+        key = "+".join(files) + ("+derived" if all(m.expn for m in members) else "")
         if key in seen:
             continue
         seen.add(key)
+        names = sorted(set(m.qname for m in members))
         entry = c05_sites.RECURSION.get(key)
         if entry is None:
             R.fail("C05.recursion", "unlisted:" + key, "a recursion cycle that is not in the audited table: %s (stack depth may be "
-                   "input-controlled)" % loc, F.find(loc[0], many=True)[0].where() if F.find(loc[0], many=True) else "")
+                   "input-controlled)" % names[:6], members[0].where())
         elif entry[0] == "F":
-            R.fail("C05.recursion", "finding:" + key[:120], "unbounded recursion: " + entry[1], F.find(loc[0], many=True)[0].where())
+            R.fail("C05.recursion", "finding:" + key, "unbounded recursion (%s): %s" % (", ".join(names[:4]), entry[1]), members[0].where())
         else:
             R.ok("C05.recursion", key, entry[1])
     R.floor("C05.recursion", "recursion cycles analysed", len(seen), 3)
